@@ -36,7 +36,12 @@ func genPrim(t *rapid.T) Type {
 	k := rapid.SampledFrom(primKinds).Draw(t, "prim")
 	ty := Type{K: k}
 	if k == "number" {
-		ty.Int = rapid.Bool().Draw(t, "int")
+		switch rapid.IntRange(0, 3).Draw(t, "numkind") {
+		case 0, 1:
+			ty.Int = true
+		case 2:
+			ty.Uint = true
+		}
 	}
 	return ty
 }
@@ -228,17 +233,61 @@ func genStr(t *rapid.T) string {
 	return string(rs)
 }
 
-var intPool = []string{"0", "1", "-1", "42", "8080", "65535", "-2147483648", "9007199254740993", "9223372036854775807", "-9223372036854775808", "100"}
-var fracPool = []string{"0.5", "-0.25", "1.5", "3.14159", "0.1", "1e3", "2.5e-3", "123456789.125", "-0.0625", "7"}
+var intPool = []string{"0", "1", "-1", "42", "8080", "65535", "-2147483648", "9007199254740993", "9223372036854775807", "-9223372036854775808", "9223372036854775806", "-9223372036854775807", "100"}
+var uintPool = []string{"0", "1", "65535", "4294967296", "9223372036854775807", "9223372036854775808", "9223372036854775809", "18446744073709551614", "18446744073709551615", "12345678901234567890"}
 
-func genNum(t *rapid.T, isInt bool) string {
-	if isInt {
+// anyNumPool: unconstrained numbers: fractions, exponents, whole numbers at and
+// beyond the int64 / uint64 boundaries, huge and tiny magnitudes, negative zero.
+var anyNumPool = []string{
+	"0.5", "-0.25", "1.5", "3.14159", "0.1", "1e3", "2.5e-3", "123456789.125", "-0.0625", "7", "0", "1", "-1", "42", "8080", "-2147483648", "9007199254740993",
+	"9223372036854775807", "9223372036854775808", "-9223372036854775808", "-9223372036854775809", "9223372036854775806",
+	"18446744073709551615", "18446744073709551616", "340282366920938463463374607431768211456", "-1180591620717411303424",
+	"1e20", "1e308", "-1e20", "1e-7", "123456789012345678901234567890", "-0",
+}
+
+// wideNumPool adds values that have no short decimal spelling (see NumberOf);
+// they are only handed over as cty values.
+var wideNumPool = []string{"1/3", "-2/7", "1/1024", "10000000000000000000000/3"}
+
+func genNum(t *rapid.T, ty Type) string {
+	switch {
+	case ty.Int:
 		if rapid.Bool().Draw(t, "intpool") {
 			return rapid.SampledFrom(intPool).Draw(t, "int")
 		}
 		return strconv.FormatInt(rapid.Int64Range(-1000000, 1000000).Draw(t, "intv"), 10)
+	case ty.Uint:
+		if rapid.Bool().Draw(t, "uintpool") {
+			return rapid.SampledFrom(uintPool).Draw(t, "uint")
+		}
+		return strconv.FormatUint(rapid.Uint64().Draw(t, "uintv"), 10)
 	}
-	return rapid.SampledFrom(append(append([]string{}, fracPool...), intPool[:7]...)).Draw(t, "num")
+	return rapid.SampledFrom(anyNumPool).Draw(t, "num")
+}
+
+// WidenNumbers replaces some number leaves of an untyped / plain-number value by
+// numbers without a short decimal spelling.  For values that are handed to the
+// code under test as cty values (never for text rendered by this package).
+func WidenNumbers(t *rapid.T, v Val) Val {
+	switch v.K {
+	case "n":
+		if rapid.IntRange(0, 5).Draw(t, "widen") == 5 {
+			return Num(rapid.SampledFrom(wideNumPool).Draw(t, "widenum"))
+		}
+	case "l":
+		out := Val{K: "l"}
+		for _, e := range v.L {
+			out.L = append(out.L, WidenNumbers(t, e))
+		}
+		return out
+	case "m":
+		out := Val{K: "m"}
+		for _, kv := range v.M {
+			out.M = append(out.M, KV{K: kv.K, V: WidenNumbers(t, kv.V)})
+		}
+		return out
+	}
+	return v
 }
 
 var keyPool = []string{"k", "key-1", "a b", "ö", "x_y", "0", "K.dot", "q\"", "${k}"}
@@ -248,7 +297,7 @@ func GenVal(t *rapid.T, ty Type) Val {
 	case "string":
 		return Str(genStr(t))
 	case "number":
-		return Num(genNum(t, ty.Int))
+		return Num(genNum(t, ty))
 	case "bool":
 		return Bool(rapid.Bool().Draw(t, "bool"))
 	case "list", "set":
@@ -298,7 +347,7 @@ func genAny(t *rapid.T, depth int) Val {
 	case 0:
 		return Str(genStr(t))
 	case 1:
-		return Num(genNum(t, rapid.Bool().Draw(t, "int")))
+		return Num(genNum(t, Type{K: "number", Int: rapid.IntRange(0, 2).Draw(t, "int") == 0}))
 	case 2:
 		return Bool(rapid.Bool().Draw(t, "bool"))
 	case 3, 4:
